@@ -203,6 +203,9 @@ def _fstring(ex, st, parts, vals):
     shape = "".join("{}" if p[0] == "expr" else p[1].replace("{", "{{") for p in parts)
     if not vals:
         return VStr(ex.decls.str_lit(shape), lit=shape)
+    if all(isinstance(v, VStr) and v.lit is not None for v in vals):
+        txt = "".join(vals[p[1]].lit if p[0] == "expr" else p[1] for p in parts)
+        return VStr(ex.decls.str_lit(txt), lit=txt)
     sorts = []
     terms = []
     for v in vals:
@@ -291,6 +294,8 @@ _PRIM_CLASSES = {"bytes": VBytes, "str": VStr, "list": (VList,), "tuple": VTuple
 
 
 def _isinst1(ex, st, v, cv, where) -> T:
+    if isinstance(v, VAny):
+        return ex.arbitrary(BOOL, "isinst_opaque")
     if isinstance(cv, VPy) and cv.what == "builtin":
         n = cv.obj
         if n == "int":
@@ -858,3 +863,27 @@ def _float_specfns():
 
 
 _float_specfns()
+
+
+@method("litdict", "items")
+def _litdict_items(ex, st, base, args, kwargs, k, where):
+    return k(st, VTuple([VTuple([VStr(ex.decls.str_lit(key), lit=key), v]) for key, v in base.obj]))
+
+
+@method("constdict", "get")
+def _constdict_get(ex, st, base, args, kwargs, k, where):
+    # a module-level constant table (e.g. VENDORS): the looked-up value is opaque, possibly None
+    return k(st, VOpt(ex.arbitrary(BOOL, "tbl_none"), VAny(ex.arbitrary(INT, "tbl_val"))))
+
+
+@method("VStr", "join")
+def _s_join(ex, st, base, args, kwargs, k, where):
+    return k(st, VStr(ex.arbitrary(STR, "joined")))
+
+
+@method("VStr", "endswith")
+def _s_endswith(ex, st, base, args, kwargs, k, where):
+    a = args[0]
+    if base.lit is not None and getattr(a, "lit", None) is not None:
+        return k(st, VBool(TRUE if base.lit.endswith(a.lit) else FALSE))
+    return k(st, VBool(_ufun(ex, "str_endswith", [STR, STR], BOOL, base.t, a.t)))
